@@ -196,6 +196,21 @@ def run(spec, cfgname, post_depth=0):
         res["c02"].append(("instance:raised:%s:%s" % (be, type(e).__name__), "evaluating the instance raised %s: %s" % (type(e).__name__, str(e)[:200])))
     res["outcome"] = "judged"
     res["stdout_len"] = len(r["stdout"])
+    if be == "mosek" and (res["c01"] or res["c02"]):
+        # explanation predicate of the known MOSEK-path finding: the MOSEK back-end returns a number for a model without
+        # finite optimum (and then goes on, e.g. into a heuristic re-solve).  Matched only if the cvxpy back-end reports the
+        # same model unbounded / infeasible.
+        try:
+            ref = models.build(spec)
+            rr = solving.solve(ref.pep, backend="cvxpy", solver="CLARABEL")
+            if rr["exc"] is None and rr["value"] is None and rr["status"] in ("unbounded", "infeasible", "unbounded_inaccurate", "infeasible_inaccurate"):
+                res["c01"] = [("mosek-number-for-model-without-optimum", "the MOSEK path returned %r for a model the cvxpy path reports %s; everything "
+                               "derived from that number is meaningless (%s)" % (val, rr["status"], res["c01"][0][1][:80]))] if res["c01"] else []
+                res["c02"] = [("mosek-number-for-model-without-optimum", "the MOSEK path returned %r for a model the cvxpy path reports %s"
+                               % (val, rr["status"]))] if res["c02"] else []
+                res["outcome"] = "no-optimum-on-cvxpy-path"
+        except Exception:
+            pass
     return res
 
 
@@ -228,7 +243,7 @@ def run_example_as_model(name, kw, backend="cvxpy"):
             res["outcome"] = "not-judged:%s" % status
             return out
         be = self.wrapper_name if self.wrapper_name in ("cvxpy", "mosek") else backend
-        tol = solving.tolerance(be, "CLARABEL")
+        tol = solving.tolerance(be, getattr(self.wrapper, "solver_name", "CLARABEL") if be == "cvxpy" else "CLARABEL")
         calls = getattr(self.wrapper, "rec_calls", None)
         if calls is None:
             return out
